@@ -135,6 +135,8 @@ def gen_literals(rng, thorough):
             mant += '.0' if rng.random() < 0.5 else 'e0'
         ex = ''
         r = rng.random()
+        if mant.endswith('e0'):
+            r = 1.0            # already carries an exponent: do not append a second one
         if r < 0.5:
             ex = rng.choice('eE') + rng.choice(['', '+', '-']) + str(rng.choice([0, 1, 5, 17, 22, 23, 60, 308, 309, 324, 400]))
         elif r < 0.6:
